@@ -5,7 +5,7 @@ import os
 VERIF = os.path.dirname(os.path.dirname(os.path.abspath(__file__)))
 
 HOOK_COMMITS = ["b9d4bd0", "034d117", "c156e58"]
-FIX_COMMITS = ["d307ba7", "1245628", "e2789dc", "37d0178", "8d97c84", "106b808", "4ace02c", "398b1f9"]
+FIX_COMMITS = ["d307ba7", "1245628", "e2789dc", "37d0178", "8d97c84", "106b808", "4ace02c", "398b1f9", "8e20502"]
 
 TRUST = ("TLC 1.8 and the TLA+ reference modules (cross-validated against gcc 12 / gfortran / git where an "
          "external tool exists); the Python harness only materialises TLC-generated cases, reformats traces and "
@@ -57,6 +57,18 @@ CHECKS["C02"] = dict(
          "value (==K / !=K), signedness and for not being evaluated in an #elif after a taken branch; the oracle is "
          "validated against gcc -E.",
     design="3/C02")
+
+CHECKS["C03"] = dict(
+    technique="TLA+ transcription of Prosser's macro expansion algorithm with hide sets (CMacro) as oracle, TLC "
+              "invariants for termination and stability; TLC-enumerated tables x invocations replayed through "
+              "MacroExpander.expand (#define and -D definitions) and #if truth",
+    text="TLC checks on every table of the catalogues (17 x 9 x 9 definitions) and every invocation line that the "
+         "reference expansion terminates within its fuel and is stable under re-expansion; every well-formed case is "
+         "expanded by the real MacroExpander with the table given by #define directives and by -D strings and compared "
+         "token by token (stringification modulo white space), and through the truth of `#if INV == k` when the result "
+         "is one number; -DNAME is checked to behave as #define NAME 1; the reference agrees with gcc -E on the sampled "
+         "cases (disagreement above 3% aborts with exit 2).",
+    design="3/C03")
 
 PENDING_REASON = "check not built yet (build in progress; see DESIGN.md section 7)"
 
